@@ -689,7 +689,18 @@ class Rope:
         cv = self.concrete()
         if cv is not None:
             return cv.decode(*a)
-        raise Undecided("decode of symbolic bytes")
+        if a and a[0].lower().replace("-", "") not in ("utf8", "ascii"):
+            raise Undecided("decode with codec %r" % (a[0],))
+        c = cur()
+        if c.branch(self.length_term() == 0):
+            return ""
+        # either the bytes are not valid text (UnicodeDecodeError, a ValueError) or they decode to a
+        # non-empty string that is a function of the bytes
+        if c.choose(2) == 1:
+            raise UnicodeDecodeError("utf-8", b"?", 0, 1, "invalid start byte (symbolic input)")
+        n = z3.Int(c.fresh("textlen"))
+        c.fact(z3.And(n >= 1, n <= self.length_term()))
+        return Rope([F("UTF8", (self,), n)], text=True)
 
     def startswith(self, p):
         p = Rope.of(p)
